@@ -15,9 +15,10 @@ seen = set()
 for p in sys.argv[1:]:
     for line in open(p, errors="replace"):
         if line.startswith("KNOWN-FINDING:"):
-            m = re.search(r"\[([^\]\s]+)\]\s*$", line)
-            if m:
-                seen.add(m.group(1))
+            line = line.rstrip()
+            k = line.rfind(" [")
+            if k >= 0 and line.endswith("]"):
+                seen.add(line[k + 2:-1])       # (signatures may themselves contain brackets)
 n = 0
 for f in core.load_findings():
     if f["signature"] not in seen:
